@@ -9,7 +9,8 @@ SHARDS = {'quick': 12, 'thorough': 16}
 RULE = ('Scenarios for the REAL Equalizer with forked workers: 1-8 recording ids with hangs past the timeout and worker '
         'deaths at first / middle / last / consecutive / recycle-boundary positions (plus late answers and ordinary '
         'verdicts), recycle rate 1-4, timeout 0.2-1.2 s, consumed fully, closed after k items, aborted by an exception '
-        'in the consumer after k items, or never started. Oracle: (i) the Comparison of a hung / dead id arrives within '
+        'in the consumer after k items, never started, or overlapped (a preview run left open after k items while a second '
+        'run of the same equalizer completes, then abandoned). Oracle: (i) the Comparison of a hung / dead id arrives within '
         'timeout + 5 s (the wait loop polls at 1 s) and the whole run within 10x its nominal worst case - this hard cap '
         'is the one place where a time limit is a violation, termination being the property; a faulty id is reported '
         'as a framework failure and the run continues with a fresh worker (later ids get their own verdict); (ii) no '
@@ -35,6 +36,18 @@ def check(scenario, obs):
     if obs['error']:
         raise Violation('run_comparison raised %s' % obs['error'], 'run-raises')
     comps = obs['comparisons']
+    if isinstance(consume, list) and consume[0] == 'overlap':
+        # two runs of one equalizer: what is required here is that both end and nothing is left behind
+        if len(comps) < len(ids):
+            raise Violation('the second run yielded %d comparisons for %d ids' % (len(comps) - obs.get('preview', 0),
+                                                                                 len(ids)), 'count')
+        if obs['wall'] > 10 * 2 * nominal(scenario):
+            raise Violation('runs took %.1f s, nominal worst case %.1f s' % (obs['wall'], 2 * nominal(scenario)),
+                            'termination')
+        if obs['children_left']:
+            raise Violation('worker processes left behind after a preview run was abandoned and a second run of the same '
+                            'equalizer completed: %r' % (obs['children_left'],), 'leak')
+        return
     want_n = len(ids) if consume == 'full' else 0 if consume == 'never' else min(consume[1], len(ids))
     if len(comps) != want_n:
         raise Violation('consumer received %d comparisons, expected %d (consume=%r)' % (len(comps), want_n, consume),
@@ -100,9 +113,12 @@ def scenarios(draw):
     faults = [i for i, b in enumerate(behs) if b in PF.PROCESS_FAULTS]
     for i in faults[3:]:
         behs[i] = 'equal'
-    consume = draw(st.sampled_from(['full', 'full', 'close', 'raise', 'never']))
+    consume = draw(st.sampled_from(['full', 'full', 'close', 'raise', 'never', 'overlap']))
     if consume in ('close', 'raise'):
         consume = [consume, draw(st.integers(1, n))]
+    elif consume == 'overlap':
+        consume = [consume, draw(st.integers(1, n))]
+        behs = [b if b in ('equal', 'different', 'player_raises') else 'equal' for b in behs]
     return {'ids': ids, 'script': dict(zip(ids, behs)), 'dedicated': True, 'recycle': draw(st.integers(1, 4)),
             'timeout': draw(st.sampled_from([0.2, 0.5, 1.2])), 'keep': False, 'consume': consume}
 
@@ -118,6 +134,10 @@ FIXED = [
      'dedicated': True, 'recycle': 2, 'timeout': 0.2, 'keep': False, 'consume': ['raise', 3]},
     {'ids': ['a', 'b'], 'script': {'a': 'equal', 'b': 'equal'}, 'dedicated': True, 'recycle': 3, 'timeout': 0.2,
      'keep': False, 'consume': 'never'},
+    {'ids': ['a', 'b', 'c'], 'script': {'a': 'equal', 'b': 'equal', 'c': 'different'}, 'dedicated': True, 'recycle': 4,
+     'timeout': 0.5, 'keep': False, 'consume': ['overlap', 1]},
+    {'ids': ['a', 'b', 'c', 'd'], 'script': {'a': 'equal', 'b': 'equal', 'c': 'equal', 'd': 'equal'}, 'dedicated': True,
+     'recycle': 2, 'timeout': 0.5, 'keep': False, 'consume': ['overlap', 3]},
 ]
 
 
